@@ -7,6 +7,7 @@ import OAuth2Model.Driver.UrlT
 import OAuth2Model.Driver.SecEq
 import OAuth2Model.Driver.Tok
 import OAuth2Model.Driver.Err
+import OAuth2Model.Driver.Adapter
 
 def dispatch (line : String) : String :=
   match (line.trimAscii.toString.splitOn " ").filter (· ≠ "") with
@@ -25,6 +26,7 @@ def dispatch (line : String) : String :=
     | "seceq" => Drv.SecEqOp.run args
     | "tok" => Drv.TokOp.run args
     | "err" => Drv.ErrOp.run args
+    | "adp" => Drv.AdapterOp.run args
     | _ => "bad-op"
 
 partial def loop (h : IO.FS.Stream) (out : IO.FS.Stream) : IO Unit := do
